@@ -47,16 +47,17 @@ def NoPanic (rt : RouterFn) (mp : Nat) : Prop := ∀ m p n, mp ≤ n → rt m p 
 
 theorem route_obs_len_indep (rt : RouterFn) (hv : ValuesPerName rt) (c c' : Ctx) (m p : Str)
     (hrt : rt m p c.pvalues.length = rt m p c'.pvalues.length)
-    (hrest : c.query = c'.query ∧ c.store = c'.store ∧ c.logger = c'.logger ∧ c.resp = c'.resp) :
+    (hrest : c.query = c'.query ∧ c.store = c'.store ∧ c.logger = c'.logger ∧ c.resp = c'.resp
+      ∧ c.handler = c'.handler) :
     (route rt c m p).2 = (route rt c' m p).2 := by
-  obtain ⟨hq, hs, hl, hr⟩ := hrest
+  obtain ⟨hq, hs, hl, hr, hh⟩ := hrest
   unfold route
   rw [← hrt]
   cases h : rt m p c.pvalues.length with
   | dispatch rm vals =>
     have hlen := hv _ _ _ _ _ h
     simp [hq, hs, hl, hr, ← hlen]
-  | notFound q => simp [hq, hs, hl, hr]
+  | notFound q => simp only [hh]; split <;> simp [hq, hs, hl, hr]
   | methodNotAllowed q a => simp [hq, hs, hl, hr]
   | panic => simp [hq, hs, hl, hr]
 
@@ -89,6 +90,7 @@ def expected : List Router.Route → List Step → List Obs
   | _, [] => []
   | routes, .register rt :: ss => expected (routes ++ [rt]) ss
   | routes, .request r :: ss => alone routes r :: expected routes ss
+  | routes, .borrow _ _ :: ss => expected routes ss   -- whatever the application did with a borrowed context
 
 /-- **C05_history_isolated** — any history of requests and registrations, any pool content. -/
 theorem C05_history_isolated
@@ -102,6 +104,9 @@ theorem C05_history_isolated
     intro w
     cases s with
     | register rt =>
+      simp only [runSteps, step, expected]
+      exact ih _
+    | borrow id prog =>
       simp only [runSteps, step, expected]
       exact ih _
     | request r =>
@@ -131,7 +136,7 @@ theorem C05_no_fail_after_registration (rt : RouterFn) (mp : Nat) (hn : NoPanic 
     cases h : rt r.method r.path (reset c r.id mp).pvalues.length with
     | panic => exact absurd h (hn _ _ _ (hlen c))
     | dispatch rm vals => simp
-    | notFound q => simp
+    | notFound q => simp only; split <;> simp
     | methodNotAllowed q a => simp
   cases pooled with
   | none =>
